@@ -470,6 +470,20 @@ def gen_program(
             for p in nd["params"]:
                 if p["name"] in defaults:
                     p["default"] = defaults[p["name"]]
+    # a signal whose producer RE-RUNS: the producer reads an upstream value through a default (it runs early on the default, then again
+    # on the real value) and a later node waits for its signal - on the second round producer and waiter are ready in the same step
+    if feats["signals"] and defaults and rng.random() < 0.5:
+        okk = ("fn", "route", "ifelse")
+        prods = [i for i, nd in enumerate(nodes) if nd["kind"] == "fn" and not nd.get("blk") and any("default" in p for p in nd["params"])]
+        if prods:
+            a = rng.choice(prods)
+            later = [j for j in range(a + 1, len(nodes)) if nodes[j]["kind"] in okk and not nodes[j].get("blk")]
+            fed = [j for j in later if any(p["name"] in nodes[a]["outs"] for p in nodes[j]["params"])]
+            if later:
+                b = rng.choice(fed or later)
+                sig = f"{prefix}sgd{a}_{b}"
+                nodes[a].setdefault("emit", []).append(sig)
+                nodes[b].setdefault("wait_for", []).append(sig)
     for nd in nodes:
         nd.pop("_slot", None)
     order = list(range(len(nodes)))
